@@ -27,6 +27,7 @@ func init() {
 }
 
 func runC40(c *core.Ctx) {
+	checkRoleWindowPredicate(c)
 	bp := c.Fn(pkVbft, "Server.buildParticipantConfig")
 	cpp := c.Fn(pkVbft, "calcParticipantPeers")
 	cp := c.Fn(pkVbft, "calcParticipant")
